@@ -299,9 +299,10 @@ def work_game(task, res: Result):
         vals[name] = v
         res.case(desc, cert and (gap >= 1e-2 or unequal), f"game/{name}/{'c' if inst['cplx'] else 'r'}/{'gap' if gap >= 1e-2 else 'nogap'}")
         if name == "unentangled":
-            if cert_c and not (lo_c - TAU <= v <= hi_c + TAU):
-                res.violation(f"unentangled_value = {v:.6f} outside the certified interval [{lo_c:.6f}, {hi_c:.6f}] of its own mirror (max over constant answers)",
-                              {"function": "unentangled_value", "kind": "mirror", "args": desc, "impl": v, "mirror_const": [lo_c, hi_c], "tau": TAU, "theorem": "checkUnentConstLower_sound / checkUnentConstUpper_sound"})
+            # the mirror interval (max over constant answers = what the loop of the unchanged code computes) is diagnostic only:
+            # it classifies a failure of the property, it is not a requirement of the property
+            in_mirror = bool(cert_c and lo_c - TAU <= v <= hi_c + TAU)
+            res.count("game/unentangled/" + ("equals-constant-answer-optimum" if in_mirror else "differs-from-constant-answer-optimum"))
             if cert and not (lo - TAU <= v <= hi + TAU):
                 res.violation(f"unentangled_value = {v:.6f} but the unentangled value (max over answer functions of lambda_max) is certified in [{lo:.6f}, {hi:.6f}]; best functions f={list(f)}, g={list(g)}",
                               {"function": "unentangled_value", "kind": "spec", "args": desc, "impl": v, "certified": [lo, hi], "mirror_const": [lo_c, hi_c] if cert_c else None, "best_functions": [list(f), list(g)], "tau": TAU,
@@ -628,7 +629,13 @@ def work_clone(task, res: Result):
     why = []
     if inst.get("certify", True):
         try:
-            refs = ref_points(Qf[np.ix_(sig, sig)], a, b, False)
+            Q1s = DM.exact_float(Q1.real).to_float()
+            refs = ref_points(Q1s, 4, 2, False)
+            if n == 2:
+                # Q >= 0: X1 (x) X1 and Y1 (x) Y1 are feasible for two repetitions (A >= B >= 0 implies A (x) A >= B (x) B), so the
+                # optimum is multiplicative; candidates in toqito's order Y1 Z1 X1 Y2 Z2 X2, brought to (outputs, inputs) by sigma
+                X2 = np.kron(refs["Xmax"], refs["Xmax"])
+                refs = {"Xmax": X2[np.ix_(SIG_C2, SIG_C2)], "Ymax": np.kron(refs["Ymax"], refs["Ymax"])}
             cert = certify_programs(drv, Q0, a, b, mode, False, refs)
             lo, hi = cert["max"]
             why = cert["why"]
@@ -705,40 +712,6 @@ def tie_checks(ctx):
 # ------------------------------------------------------------------------------------------------
 
 
-def _matchers(ctx):
-    def m_unent_const(info):
-        mc = info.get("mirror_const")
-        return (info.get("function") == "unentangled_value" and info.get("kind") == "spec" and mc is not None and "impl" in info
-                and mc[0] - info["tau"] <= info["impl"] <= mc[1] + info["tau"] and info["impl"] < info["certified"][0] - info["tau"])
-
-    def m_npa_herm(info):
-        return (info.get("function") == "commuting_measurement_value_upper_bound" and "impl" in info and "exception" not in info
-                and ((info.get("certified_unentangled") is not None and info["impl"] < info["certified_unentangled"][0] - info["tau"]) or info.get("via") == "seesaw"))
-
-    def m_npa_square(info):
-        sh = info.get("shape")
-        return info.get("function") in ("npa1", "npa2") and "exception" in info and "ValueError" in info["exception"] and "square" in info["exception"] and sh is not None and sh[1] != sh[2]
-
-    def m_seesaw_dim(info):
-        sh = info.get("shape")
-        return info.get("function") == "seesaw" and "exception" in info and "ValueError" in info["exception"] and "ncompatible dimensions" in info["exception"] and sh is not None and sh[0] != sh[2]
-
-    def m_hedge_real_dual(info):
-        if info.get("function") not in ("max_prob_outcome_a_dual", "min_prob_outcome_a_dual") or not info.get("cplx") or "impl" not in info:
-            return False
-        rr = info.get("real_restricted_dual")
-        if rr is None or abs(info["impl"] - rr) > 2 * info["tau"]:
-            return False
-        if info.get("uncertified"):
-            return (info["impl"] > info["primal"]) if info["which"] == "max" else (info["impl"] < info["primal"])
-        return (info["impl"] > info["certified"][1]) if info["which"] == "max" else (info["impl"] < info["certified"][0])
-    ctx.matchers["c09_unentangled_constant_answers"] = m_unent_const
-    ctx.matchers["c09_npa_hermitian_assemblage"] = m_npa_herm
-    ctx.matchers["c09_npa_unequal_answer_sets"] = m_npa_square
-    ctx.matchers["c09_seesaw_referee_dim"] = m_seesaw_dim
-    ctx.matchers["c09_hedging_real_dual"] = m_hedge_real_dual
-
-
 def _game_calls(inst, with_seesaw, with_npa2):
     d, _, A, B, X, Y = np.asarray(inst["pred"]).shape
     calls = ["unentangled", "nonsignaling", "npa1"]
@@ -752,11 +725,10 @@ def _game_calls(inst, with_seesaw, with_npa2):
 def run(ctx, model_ok=True):
     rng = ctx.rng
     quick = ctx.tier == "quick"
-    _matchers(ctx)
     tie_checks(ctx)
     # ---- games
     games = corpus_games()
-    n_rand = 40 if quick else 400
+    n_rand = 70 if quick else 400
     for _ in range(n_rand):
         games.append(gen_game(rng, quick))
     tasks = []
@@ -764,11 +736,14 @@ def run(ctx, model_ok=True):
     for i, g in enumerate(games):
         d, _, A, B, X, Y = g["pred"].shape
         small = d == 2 and max(A, B, X, Y) <= 2
-        ss = (g["kind"] in ("echo", "bb84")) or (n_seesaw < (6 if quick else 60) and (small or d != B))
+        ss = (g["kind"] in ("echo", "bb84")) or (n_seesaw < (10 if quick else 60) and (small or d != B))
         if ss:
             n_seesaw += 1
         tasks.append((g, _game_calls(g, ss, i < 12 or not quick), int(rng.integers(1 << 30))))
+    import time as _t
+    t0 = _t.time()
     run_pool(ctx, work_game, tasks)
+    ctx.extra.setdefault("phase_wall_s", {})["games"] = round(_t.time() - t0, 1)
     # ---- hedging
     q0, q1 = mw_ops()
     c2, s2 = float(np.cos(np.pi / 8) ** 2), float(np.sin(np.pi / 8) ** 2)
@@ -776,10 +751,10 @@ def run(ctx, model_ok=True):
           {"kind": "mw-q1", "Q": q1, "n": 1, "cplx": False, "closed": [("max", c2, 1e-6), ("min", 0.0, 1e-6)]},
           {"kind": "mw-q0q0", "Q": np.kron(q0, q0), "n": 2, "cplx": False, "closed": [("min", 0.0, 2e-6)]},
           {"kind": "mw-q1q1", "Q": np.kron(q1, q1), "n": 2, "cplx": False, "closed": []}]
-    for _ in range(36 if quick else 400):
+    for _ in range(60 if quick else 400):
         cplx = bool(rng.integers(2))
         ht.append({"kind": "random", "Q": gen_q4(rng, cplx, int(rng.integers(1, 5))), "n": 1, "cplx": cplx})
-    for _ in range(10 if quick else 100):
+    for _ in range(16 if quick else 100):
         cplx = bool(rng.integers(2))
         if rng.integers(3):
             Q = np.kron(gen_q4(rng, cplx, int(rng.integers(2, 5))), gen_q4(rng, cplx, int(rng.integers(2, 5))))
@@ -791,24 +766,27 @@ def run(ctx, model_ok=True):
             Q = Q if cplx else Q.real
             kind = "generic16"
         ht.append({"kind": kind, "Q": Q, "n": 2, "cplx": cplx})
+    t0 = _t.time()
     run_pool(ctx, work_hedge, ht)
+    ctx.extra["phase_wall_s"]["hedging"] = round(_t.time() - t0, 1)
     # ---- cloning
     e0, e1 = np.array([[1.0], [0.0]]), np.array([[0.0], [1.0]])
     ep, em = (e0 + e1) / np.sqrt(2), (e0 - e1) / np.sqrt(2)
     ct = [{"kind": "wiesner", "states": [e0, e1, ep, em], "probs": [0.25] * 4, "n": 1, "closed": [(0.75, 1e-6)]},
           {"kind": "wiesner", "states": [e0, e1, ep, em], "probs": [0.25] * 4, "n": 2, "closed": [(0.5625, 2e-6)], "single": 0.75}]
-    ens = [gen_ensemble(rng) for _ in range(14 if quick else 150)]
+    ens = [gen_ensemble(rng) for _ in range(24 if quick else 150)]
     for st, pr in ens:
         ct.append({"kind": "random", "states": st, "probs": pr, "n": 1})
-    for i, (st, pr) in enumerate(ens[: (3 if quick else 30)]):
-        ct.append({"kind": "random", "states": st, "probs": pr, "n": 2, "certify": i < (1 if quick else 10)})
+    for i, (st, pr) in enumerate(ens[: (5 if quick else 30)]):
+        ct.append({"kind": "random", "states": st, "probs": pr, "n": 2, "certify": i < (2 if quick else 10)})
+    t0 = _t.time()
     run_pool(ctx, work_clone, ct)
+    ctx.extra["phase_wall_s"]["cloning"] = round(_t.time() - t0, 1)
     ctx.extra["tolerances"] = {"scs_value": TAU, "primal_dual_agreement": 2 * TAU}
     ctx.extra["certified_interval_width_bound"] = WIDTH_OK
 
 
 def replay(ctx, rec):
-    _matchers(ctx)
     a = rec.get("args", {})
     res = Result()
     part = a.get("part")
